@@ -296,7 +296,9 @@ def gecko_rule(F, rep):
         if x.get("k") == "Struct" and (x.get("path") or "") == "game::GeckoCodes":
             f = {y["name"]: strip(y["e"]) for y in x["fields"]}
             bsrc = f.get("bytes", {})
-            blob = bsrc.get("k") == "MethodCall" and bsrc["method"] in ("to_vec", "clone") and (strip(bsrc["recv"]).get("ty") or "").endswith("Vec<u8>") and strip(bsrc["recv"]).get("res") == "local"
+            # the payload buffer itself: copied (`buf.to_vec()`, `buf.clone()`) or moved (`bytes: buf`)
+            src = strip(bsrc["recv"]) if bsrc.get("k") == "MethodCall" and bsrc["method"] in ("to_vec", "clone", "to_owned") and not bsrc.get("args") else bsrc
+            blob = src.get("k") == "Path" and src.get("res") == "local" and (src.get("ty") or "").endswith("Vec<u8>")
             ok = blob and (tir.place(f.get("actual_size", {})) or "").endswith("split_accumulator.actual_size")
     rep.ob("gecko.stored", ok, events.PARSE_EVENT + "#GeckoCodes", "store", "the assembled blob and its actual size must be stored unchanged")
     # double_game_end: set in one place, consumed by raw_size and write
